@@ -21,7 +21,13 @@ RULE = (
     "declared int) and arbitrary doubles; weighters: EqualWeighter(base_value), StdWeighter, EntropyWeighter, "
     "CRITIC(correlation in {pearson, spearman}, scale in {True, False}). Three legs: implementation vs Lean model (Float; exact Rat for "
     "EqualWeighter) vs an independent Fraction / 50-digit Decimal evaluation of the published formulas (the property oracle), plus "
-    "label-wise comparison of the permuted presentations and bit-identity of matrix / objectives / labels / dtypes. A case is "
+    "label-wise comparison of the permuted presentations and bit-identity of matrix / objectives / labels / dtypes. Every case is "
+    "also a short SEQUENCE of evaluations in one process on the same matrix values: the first configuration, then the same weighter "
+    "under a second objective vector (a non-empty strict subset of the senses flipped), then another parameterisation of the same "
+    "weighter class (other correlation and/or scale; other base_value) under the second and under the first objectives, then the "
+    "first configuration again (same weighter object): each result must satisfy the normalisation and formula oracle for ITS OWN "
+    "(matrix, objectives, parameters), agree with the Lean model run on those inputs, leave matrix / objectives untouched, and the "
+    "first and last results must agree. Every configuration of the sequence is inside the generated domain. A case is "
     "non-trivial when every criterion is non-constant and the weights are not all equal (EqualWeighter: always)."
 )
 ASSUMPTIONS = [
@@ -181,6 +187,48 @@ def _spec(rng):
     return {"cls": cls}
 
 
+def _in_domain(spec, A, objs):
+    """the configuration is inside the generated domain (formula defined, well conditioned, ranks of the scaled matrix stable)"""
+    w, scale = exact_weights(spec, A, objs)
+    if w is None or scale > MAX_SCALE:
+        return False
+    if spec["cls"] == "CRITIC" and spec["scale"]:
+        cz = _cenit(A, objs)
+        if cz is None or not _columns_ok([[float(x) for x in r] for r in cz], False):
+            return False
+    return True
+
+
+def _other_spec(rng, spec):
+    """another parameterisation of the same weighter class (None when the class has no parameter)"""
+    if spec["cls"] == "CRITIC":
+        combos = [(c, s) for c in ("pearson", "spearman") for s in (True, False) if (c, s) != (spec["correlation"], spec["scale"])]
+        c, s = rng.choice(combos)
+        return {"cls": "CRITIC", "correlation": c, "scale": s}
+    if spec["cls"] == "EqualWeighter":
+        b = spec["base_value"]
+        cand = [b * 2, b / 2, b + 1.0, float(rng.randint(2, 9)), rng.randint(1, 64) / 8, 1.0]
+        rng.shuffle(cand)
+        return {"cls": "EqualWeighter", "base_value": next(x for x in cand if x != b)}
+    return None
+
+
+def _sequence(rng, spec, A, objs):
+    """follow-up evaluations on the same matrix values, in one process: other objectives (a strict, non-empty subset of the
+    senses flipped), another parameterisation under both objective vectors, then the first configuration again"""
+    n = len(objs)
+    for _ in range(12):
+        flip = set(rng.sample(range(n), rng.randint(1, n - 1)))
+        objs2 = [-o if j in flip else o for j, o in enumerate(objs)]
+        spec2 = _other_spec(rng, spec)
+        steps = [{"spec": spec, "objectives": objs2}]
+        if spec2 is not None:
+            steps += [{"spec": spec2, "objectives": objs2}, {"spec": spec2, "objectives": list(objs)}]
+        if all(_in_domain(st["spec"], A, st["objectives"]) for st in steps):
+            return steps + [{"spec": spec, "objectives": list(objs)}]
+    return None
+
+
 def one_case(rng, max_m=12):
     for _ in range(200):
         spec = _spec(rng)
@@ -207,6 +255,9 @@ def one_case(rng, max_m=12):
             if cz is None or not _columns_ok([[float(x) for x in r] for r in cz], False):
                 continue
         dtypes = ["int" if all(float(r[j]).is_integer() for r in rows) and rng.random() < 0.6 else "float" for j in range(n)]
+        seq = _sequence(rng, spec, A, objs)
+        if seq is None:
+            continue
         w1 = G.weights(rng, n, family)
         w2 = G.weights(rng, n, family)
         if w2 == w1:
@@ -221,7 +272,7 @@ def one_case(rng, max_m=12):
             "kind": "weigh", "spec": spec,
             "dm": {"matrix": rows, "objectives": objs, "weights": w1, "alternatives": G.labels(rng, G.LABEL_POOL_ALT, m),
                    "criteria": G.labels(rng, G.LABEL_POOL_CRIT, n), "dtypes": dtypes, "family": family},
-            "row_perm": rp, "col_perm": cp, "weights2": w2,
+            "row_perm": rp, "col_perm": cp, "weights2": w2, "seq": seq,
         }
     raise RuntimeError("generator could not produce an in-domain case")
 
@@ -308,6 +359,20 @@ def observe(case):
             obs["both"] = _by_label(W.transform(_mk(d, rows=case["row_perm"], cols=case["col_perm"])))
             obs["w2"] = _by_label(W.transform(_mk(d, weights=case["weights2"])))
             obs["fresh"] = _by_label(_build(case["spec"]).transform(_mk(d)))
+            # the sequence: same matrix values, same process, other objectives / parameters, then the first configuration again
+            built = [(case["spec"], W)]
+            obs["seq"] = []
+            for st in case.get("seq", []):
+                Ws = next((o for sp, o in built if sp == st["spec"]), None)
+                if Ws is None:
+                    Ws = _build(st["spec"])
+                    built.append((st["spec"], Ws))
+                dms = _mk(dict(d, objectives=st["objectives"]))
+                b4 = _snapshot(dms)
+                ts = Ws.transform(dms)
+                aft = _snapshot(ts)
+                obs["seq"].append({"weights": [float(x) for x in ts.weights.to_numpy()], "labels": [str(c) for c in ts.criteria],
+                                   "frame_diff": [k for k in b4 if b4[k] != aft[k]]})
         except Exception as e:
             return {"err": G.err_name(e), "msg": str(e)[:200]}
         return obs
@@ -318,8 +383,9 @@ def observe(case):
 METHOD = {"EqualWeighter": "equal", "StdWeighter": "std", "EntropyWeighter": "entropy", "CRITIC": "critic"}
 
 
-def _req(case, domain):
-    d, spec = case["dm"], case["spec"]
+def _req(case, domain, spec=None, objectives=None):
+    d = case["dm"] if objectives is None else dict(case["dm"], objectives=objectives)
+    spec = case["spec"] if spec is None else spec
     enc = C.rat if domain == "rat" else C.fbits
     r = {"op": "weigh", "method": METHOD[spec["cls"]], "domain": domain, "M": [[enc(x) for x in row] for row in d["matrix"]],
          "O": ["max" if o == 1 else "min" for o in d["objectives"]], "w": [enc(x) for x in d["weights"]]}
@@ -337,6 +403,8 @@ def requests(case, obs):
     reqs = [_req(case, "float")]
     if case["spec"]["cls"] == "EqualWeighter":
         reqs.append(_req(case, "rat"))
+    for st in case.get("seq", []):
+        reqs.append(_req(case, "float", st["spec"], st["objectives"]))
     return reqs
 
 
@@ -349,6 +417,34 @@ def _name(spec):
     if spec["cls"] == "EqualWeighter":
         return f"EqualWeighter({spec['base_value']!r})"
     return spec["cls"]
+
+
+def _oracle(spec, A, objs, crit, w, exact, tol, prop, corr, where):
+    """normalisation and the published formula, for one (matrix, objectives, parameters) -> weights evaluation"""
+    n = len(crit)
+    # (1) normalisation
+    if spec["cls"] == "EqualWeighter":
+        want = C.F(spec["base_value"]) / n
+        bad = [j for j in range(n) if abs(D(w[j]) - D(want)) > D(tol)]
+        if bad:
+            prop(where + "a criterion does not get base_value / (number of criteria)", {"each": float(want), "n_criteria": n, "tol": tol}, w)
+    else:
+        neg = [j for j in range(n) if w[j] < -tol]
+        if neg:
+            prop(where + "negative weight", ">= 0", {crit[j]: w[j] for j in neg})
+        tot = sum((D(x) for x in w), Decimal(0))
+        if abs(tot - 1) > D(tol):
+            prop(where + "weights do not sum to 1", 1.0, float(tot))
+    # (2) the published formula
+    if exact is None:
+        corr(where + "case outside the domain of the formula (zero total): generator guard failed", None, w)
+    else:
+        bad = [j for j in range(n) if abs(D(w[j]) - exact[j]) > D(tol)]
+        if bad:
+            j = bad[0]
+            prop(where + "weight differs from the published formula (independent exact evaluation)",
+                 {"criterion": crit[j], "objectives": list(objs), "exact": str(exact[j])[:30], "all_exact": [float(x) for x in exact],
+                  "tol": tol}, w)
 
 
 def judge(case, obs, replies):
@@ -379,28 +475,8 @@ def judge(case, obs, replies):
     if not all(math.isfinite(x) for x in w):
         prop("weights are not finite", "finite weights", w)
         return out
-    # (1) normalisation
-    if spec["cls"] == "EqualWeighter":
-        want = C.F(spec["base_value"]) / n
-        bad = [j for j in range(n) if abs(D(w[j]) - D(want)) > D(tol)]
-        if bad:
-            prop("a criterion does not get base_value / (number of criteria)", {"each": float(want), "n_criteria": n, "tol": tol}, w)
-    else:
-        neg = [j for j in range(n) if w[j] < -tol]
-        if neg:
-            prop("negative weight", ">= 0", {crit[j]: w[j] for j in neg})
-        tot = sum((D(x) for x in w), Decimal(0))
-        if abs(tot - 1) > D(tol):
-            prop("weights do not sum to 1", 1.0, float(tot))
-    # (2) the published formula
-    if exact is None:
-        corr("case outside the domain of the formula (zero total): generator guard failed", None, w)
-    else:
-        bad = [j for j in range(n) if abs(D(w[j]) - exact[j]) > D(tol)]
-        if bad:
-            j = bad[0]
-            prop("weight differs from the published formula (independent exact evaluation)",
-                 {"criterion": crit[j], "exact": str(exact[j])[:30], "all_exact": [float(x) for x in exact], "tol": tol}, w)
+    # (1) normalisation and (2) the published formula
+    _oracle(spec, A, d["objectives"], crit, w, exact, tol, prop, corr, "")
     # (3) order-independence and independence of the incoming weights, by criterion name
     base = dict(zip(crit, w))
     for key, what in (("rows", "alternatives listed in another order"), ("cols", "criteria listed in another order"),
@@ -421,6 +497,37 @@ def judge(case, obs, replies):
     if obs["type"] != "DecisionMatrix":
         prop("transform() did not return a DecisionMatrix", "DecisionMatrix", obs["type"])
 
+    # (5) the sequence: the same matrix values evaluated again in the same process under other objectives / parameters; each result
+    #     answers for its own inputs, and coming back to the first configuration gives the first result
+    seq = case.get("seq", [])
+    seq_obs = obs.get("seq", [])
+    seq_tols = []
+    for i, (st, so) in enumerate(zip(seq, seq_obs)):
+        s_spec, s_objs = st["spec"], st["objectives"]
+        where = (f"evaluation {i + 2} of a sequence on the same matrix values in one process "
+                 f"[{_name(s_spec)}, objectives {s_objs}; first evaluation {name}, objectives {d['objectives']}]: ")
+        s_exact, s_scale = exact_weights(s_spec, A, s_objs)
+        s_tol = TOL * s_scale
+        seq_tols.append(s_tol)
+        sw = so["weights"]
+        if so["labels"] != crit or len(sw) != n:
+            prop(where + "criteria of the transformed matrix differ from the input's", crit, so["labels"])
+            continue
+        if not all(math.isfinite(x) for x in sw):
+            prop(where + "weights are not finite", "finite weights", sw)
+            continue
+        _oracle(s_spec, A, s_objs, crit, sw, s_exact, s_tol, prop, corr, where)
+        if so["frame_diff"]:
+            prop(where + "the transformed decision matrix differs from its input in " + ", ".join(so["frame_diff"]), "bit-identical",
+                 so["frame_diff"])
+        if s_spec == spec and list(s_objs) == list(d["objectives"]):
+            bad = [c for c, x, y in zip(crit, w, sw) if abs(x - y) > tol]
+            if bad:
+                prop(where + f"the first configuration evaluated again gives another weight for criterion {bad[0]!r}",
+                     dict(zip(crit, w)), dict(zip(crit, sw)))
+    if len(seq_obs) != len(seq):
+        corr("sequence observations missing", len(seq), len(seq_obs))
+
     # correspondence with the Lean model
     rep = replies[0]
     mv = rep.get("weights")
@@ -438,6 +545,19 @@ def judge(case, obs, replies):
             vals = [C.frac(x) for x in mv]
             if any(abs(D(v) - D(a)) > D(tol) for v, a in zip(vals, w)):
                 corr("weights, Lean model (exact Rat) vs implementation", [float(v) for v in vals], w)
+    base_n = 2 if spec["cls"] == "EqualWeighter" else 1
+    for i, (st, so, s_tol) in enumerate(zip(seq, seq_obs, seq_tols)):
+        if base_n + i >= len(replies):
+            break
+        mv = replies[base_n + i].get("weights")
+        sw = so["weights"]
+        if mv is None or len(mv) != n:
+            corr(f"model returned no weights for evaluation {i + 2} of the sequence", None, replies[base_n + i])
+        elif len(sw) == n:
+            vals = [C.unfbits(x) for x in mv]
+            if any(not math.isfinite(v) or not math.isfinite(a) or abs(v - a) > s_tol for v, a in zip(vals, sw)):
+                corr(f"weights, Lean model (Float) vs implementation, evaluation {i + 2} of the sequence "
+                     f"[{_name(st['spec'])}, objectives {st['objectives']}]", vals, sw)
     return out
 
 
@@ -458,4 +578,13 @@ def tags(case, obs):
         t.append("ties-in-a-criterion")
     if "int" in d["dtypes"]:
         t.append("int-dtype-criterion")
+    seq = case.get("seq", [])
+    if seq:
+        k = sum(1 for a, b in zip(o, seq[0]["objectives"]) if a != b)
+        t.append("seq:%d-evaluations" % (len(seq) + 1))
+        t.append("seq:senses-flipped:%d-of-%d" % (k, len(o)))
+        for st in seq:
+            if st["spec"] != spec and st["spec"]["cls"] == "CRITIC":
+                t.append("seq:other-" + "+".join(x for x in ("correlation", "scale") if st["spec"][x] != spec[x]))
+                break
     return t
